@@ -532,6 +532,28 @@ class Lib:
             res = SDict(U, val.sort(), dom=z3.K(U, BoolVal(True)), name='dcomp')
             run.assume(so.forall(U, lambda k: res.val[k] == z3.substitute(val, (x, k))))
             return res
+        if isinstance(src, SList) and not isinstance(src.esort, TupleSpec) and isinstance(g.target, ast.Name) \
+                and isinstance(e.key, ast.Name) and e.key.id == g.target.id:
+            # {x: expr(x) for x in L} : the keys are the elements of the list, values defined pointwise
+            K = src.esort
+            x = fresh('dk', K)
+            mem = (lambda k: src.memberf(k)) if getattr(src, 'memberf', None) is not None else (lambda k: src.contains(k))
+            le = _ChainEnv(env)
+            le[g.target.id] = x
+            saved = len(run.temp_assume)
+            run.temp_assume.append(mem(x))
+            guard = self.protect_doms(run, env)
+            try:
+                val = run.ev(e.value, le)
+            finally:
+                del run.temp_assume[saved:]
+                self.restore_doms(run, guard)
+            if not z3.is_expr(val):
+                raise Unsupported('dict comprehension value at line %d' % e.lineno)
+            res = SDict(K, val.sort(), name='dcomp')
+            run.assume(so.forall(K, lambda k: res.dom[k] == mem(k)))
+            run.assume(so.forall(K, lambda k: Implies(mem(k), res.val[k] == z3.substitute(val, (x, k)))))
+            return res
         if isinstance(src, tuple) and src and isinstance(src[0], str) and src[0] == 'keys':
             src = src[1]
         if not (isinstance(src, SDict) and isinstance(g.target, ast.Name) and isinstance(e.key, ast.Name) and e.key.id == g.target.id):
